@@ -172,6 +172,28 @@ fn exec_op(op: &Op) -> Res {
     }
 }
 
+/// The same operation on the minimal build (32-bit fiat fields, self-contained
+/// curve, constant-time Tonelli-Shanks), linked into this binary as a second,
+/// heterogeneous caller. It has no shared state; it is here so that the "both
+/// builds" configuration is at least sampled by the workload.
+fn exec_op_min(op: &Op) -> Res {
+    use decaf377_min as m;
+    let to_fq = |b: &BigUint| {
+        let mut v = (b % &fq().p).to_bytes_le();
+        v.resize(32, 0);
+        m::Fq::from_le_bytes_mod_order(&v)
+    };
+    match op {
+        Op::Sqrt { num, den, .. } => {
+            let (b, y) = m::Fq::non_arkworks_sqrt_ratio_zeta(&to_fq(num), &to_fq(den));
+            Res::Sqrt(b, BigUint::from_bytes_le(&y.to_bytes_le()))
+        }
+        Op::Decode(b) => Res::Decode(m::Encoding(*b).vartime_decompress().ok().map(|e| e.vartime_compress().0)),
+        Op::Encode(k) => Res::Encode(m::Element::GENERATOR.scalar_mul_vartime(&[*k]).vartime_compress().0),
+        Op::Elligator(r) => Res::Elligator(m::Element::encode_to_curve(&to_fq(r)).vartime_compress().0),
+    }
+}
+
 /// Oracle for one result, by the reference model (invariant ids in the messages).
 fn judge(op: &Op, res: &Res) {
     match (op, res) {
@@ -240,6 +262,21 @@ fn scenario(max_threads: usize, max_ops: usize) {
             for op in &plan {
                 let r = exec_op(op);
                 judge(op, &r); // algebraic / reference check inside the racing thread
+                let rm = exec_op_min(op);
+                judge(op, &rm);
+                match (&r, &rm) {
+                    // the root's sign is not part of the contract; everything else must be byte-identical
+                    (Res::Sqrt(a, _), Res::Sqrt(b, _)) => {
+                        if a != b {
+                            panic!("INVARIANT builds_disagree: {:?}: {:?} vs minimal build {:?}", op, r, rm);
+                        }
+                    }
+                    _ => {
+                        if r != rm {
+                            panic!("INVARIANT builds_disagree: {:?}: {:?} vs minimal build {:?}", op, r, rm);
+                        }
+                    }
+                }
                 out.push(r);
             }
             out
